@@ -148,6 +148,34 @@ pub fn cmd_pwstr(args: &[String]) {
         let sn = so_needs(&s, ops, mem * 1024);
         if (sn != 0) != needs { rep.fail("libsodium's needs_rehash differs from the specification's table (spec error)", json!({"row": r, "sodium": sn})); }
     }
+    // salts and hashes whose base64 text happens to begin like another field ("argon2...", "v", "m", "t", "p"): a valid string
+    // is recognised by the POSITION of its fields (libsodium), not by what their text looks like
+    for (si, stext) in ["argon2idAAAAAAAAAAAAAA", "argon2iBBBBBBBBBBBBBBA", "argon2ABCDEFGHIJKLMNOA", "vvvvvvvvvvvvvvvvvvvvvA", "mtpmtpmtpmtpmtpmtpmtpA"].iter().enumerate() {
+        let salt = crate::rng::b64dec(stext);
+        if salt.len() != 16 { rep.fail("HARNESS: look-alike salt does not decode to 16 bytes", json!(stext)); continue; }
+        let pw = rng.bytes(7 + si);
+        for alg in [2i32, 1] {
+            let (t, m) = (if alg == 1 { 3u64 } else { 1 }, 8192usize);
+            let mut h = [0u8; 32];
+            let rc = unsafe { libsodium_sys::crypto_pwhash(h.as_mut_ptr(), 32, pw.as_ptr() as *const _, pw.len() as u64, salt.as_ptr(), t, m, alg) };
+            if rc != 0 { rep.fail("HARNESS: libsodium crypto_pwhash failed", json!(stext)); continue; }
+            let st = format!("${}$v=19$m={},t={},p=1${}${}", if alg == 1 { "argon2i" } else { "argon2id" }, m / 1024, t, b64(&salt), b64(&h));
+            rep.evaluations += 3;
+            rep.case(&st);
+            if !so_verify(&st, &pw) { rep.fail("libsodium rejects a string with a look-alike salt (harness error)", json!({"string": st})); continue; }
+            match catch(|| cp::crypto_pwhash_str_verify(&st, &pw)) {
+                Ok(Ok(())) => {}
+                Ok(Err(e)) => rep.fail("crypto_pwhash_str_verify rejects a valid string whose salt text begins like another field", json!({"string": st, "err": format!("{:?}", e)})),
+                Err(pn) => rep.fail("crypto_pwhash_str_verify panicked", json!({"string": st, "panic": pn})),
+            }
+            match catch(|| PwHash::<Vec<u8>, Vec<u8>>::from_string(&st)) {
+                Ok(Ok(p)) => { if p.to_string() != st { rep.fail("from_string then to_string does not return the same string", json!({"string": st, "reencoded": p.to_string(), "producer": "look-alike salt"})); }
+                               if p.verify(&pw).is_err() { rep.fail("parsed PwHash rejects the right password", json!({"string": st})); } }
+                Ok(Err(e)) => rep.fail("PwHash::from_string rejects a valid string whose salt text begins like another field", json!({"string": st, "err": format!("{:?}", e)})),
+                Err(pn) => rep.fail("PwHash::from_string panicked", json!({"string": st, "panic": pn})),
+            }
+        }
+    }
     // cost fields over their whole domain (PwStr.tla CostRows / CostStrings): no hashing, strings with a stand-in salt and hash
     let fake = |m: &str, t: &str| format!("$argon2id$v=19$m={},t={},p=1${}${}", m, t, b64(&[7u8; 16]), b64(&[9u8; 32]));
     if let Some(rows) = table.get("costrows").and_then(|x| x.as_array()) {
